@@ -66,8 +66,15 @@ func runStep(m, rl, wl, p, pc int, pre []ins) (res stepResult) {
 
 func stepLine(m, rl, wl, p, pc int, pre []ins, res stepResult) string {
 	var sb strings.Builder
-	if m > 4096 {
-		// big cores are written sparsely: the cells that differ from the initial DAT.F $0, $0
+	nonBlank := 0
+	for a := range pre {
+		if pre[a] != (ins{}) {
+			nonBlank++
+		}
+	}
+	if m > 4096 && nonBlank*16 < m {
+		// big, mostly empty cores are written sparsely: the cells that differ from the initial DAT.F $0, $0
+		// (a dense core stays a plain list: applying thousands of single-cell updates costs TLC a copy of the core each)
 		fmt.Fprintf(&sb, `{"M":%d,"RL":%d,"WL":%d,"P":%d,"pc":%d,"sparse":1,"pre":[`, m, rl, wl, p, pc)
 		first := true
 		for a := range pre {
